@@ -29,7 +29,7 @@ def native(binary,scenarios,timeout=600):
         env=dict(os.environ); env['VERIF_REPO']=runner.REPO
         p=subprocess.run([binary,f],cwd=d,env=env,stdout=subprocess.PIPE,stderr=subprocess.PIPE,timeout=timeout)
         if p.returncode!=0: raise Unsupported('replay binary failed: '+p.stderr.decode(errors='replace')[-800:])
-        return json.loads(p.stdout.decode())
+        return json.loads(p.stdout.decode(errors='replace').strip().split('\n')[-1])     # the crate itself prints debug lines to stdout
     finally:
         shutil.rmtree(d,ignore_errors=True)
 
